@@ -58,6 +58,26 @@ pub fn build_arena(base: usize, pages: usize, special: &[usize], kbase: u32) -> 
                 buf[off..off + SLOT].copy_from_slice(&b);
                 funcs.push((a, k)); // k is the value of the function that follows
                 stub_pending = true;
+            } else if funcs.len() % 7 == 5 {
+                // every seventh function starts with a harmless instruction whose leading bytes are
+                // ones a patcher might inspect or emit itself (landing pad, SSE prefix, long NOP, the head
+                // of the long trampoline form, a jmp to the next instruction); it still returns K
+                let prefixes: [&[u8]; 6] = [
+                    &[0xF3, 0x0F, 0x1E, 0xFA],                                     // endbr64
+                    &[0xF3, 0x0F, 0x58, 0xC7],                                     // addss xmm0, xmm7
+                    &[0x0F, 0x1F, 0x40, 0x00],                                     // nop dword [rax+0]
+                    &[0x48, 0xB8, 0x11, 0x22, 0x33, 0x44, 0x55, 0x66, 0x77, 0x08], // mov rax, imm64
+                    &[0xE9, 0x00, 0x00, 0x00, 0x00],                               // jmp +0
+                    &[0x66, 0x90],                                                 // 2-byte nop
+                ];
+                let pre = prefixes[(funcs.len() / 7) % prefixes.len()];
+                let mut b = vec![0xCCu8; SLOT];
+                b[..pre.len()].copy_from_slice(pre);
+                b[pre.len()..pre.len() + 6].copy_from_slice(&func_bytes(k)[..6]);
+                buf[off..off + SLOT].copy_from_slice(&b);
+                funcs.push((a, k));
+                k += 1;
+                stub_pending = false;
             } else {
                 buf[off..off + SLOT].copy_from_slice(&func_bytes(k));
                 funcs.push((a, k));
